@@ -331,6 +331,20 @@ func (c *lockCtx) scan(f *ssa.Function) {
 						report("R-LOCK/L1", "map delete "+fld, x.Pos(), "delete from shared map "+fld, true)
 					}
 				}
+				// an atomic read-modify-write is no data race, but it is still state that one call
+				// leaves behind for every other call on the shared object
+				if callee := x.Call.StaticCallee(); callee != nil && callee.Pkg != nil && callee.Pkg.Pkg.Path() == "sync/atomic" && len(x.Call.Args) > 0 {
+					switch callee.Name() {
+					case "Add", "Store", "Swap", "CompareAndSwap", "And", "Or",
+						"AddInt32", "AddInt64", "AddUint32", "AddUint64", "AddUintptr", "StoreInt32", "StoreInt64", "StoreUint32", "StoreUint64", "StorePointer", "StoreUintptr",
+						"SwapInt32", "SwapInt64", "SwapUint32", "SwapUint64", "SwapPointer", "CompareAndSwapInt32", "CompareAndSwapInt64", "CompareAndSwapUint32", "CompareAndSwapUint64", "CompareAndSwapPointer":
+						if fld, ok := c.fieldOf(x.Call.Args[0]); ok {
+							if fa, isFA := x.Call.Args[0].(*ssa.FieldAddr); !isFA || !isFresh(fa.X) {
+								report("R-LOCK/L2", "atomic "+callee.Name()+" "+fld, x.Pos(), "atomic update ("+callee.Name()+") of "+fld+" of an object not allocated in this function", false)
+							}
+						}
+					}
+				}
 			case *ssa.Store:
 				if g, ok := x.Addr.(*ssa.Global); ok && g.Pkg != nil && core.IsSource(g.Pkg.Pkg.Path()) {
 					if f.Name() == "init" || strings.HasPrefix(f.Name(), "init#") {
